@@ -93,9 +93,16 @@ class Clause(object):
         # a local variable that holds something callable (`read_child = super(..).read_nonblocking`, a function handed in as a parameter of a
         # non-public function) and is called: what is called there is not known to the rules either
         bound = set()
+        other = set()
         for x in _ast.walk(node):
-            if isinstance(x, _ast.Name) and isinstance(x.ctx, _ast.Store):
-                bound.add(x.id)
+            if isinstance(x, _ast.Assign) and len(x.targets) == 1 and isinstance(x.targets[0], _ast.Name) and isinstance(x.value, _ast.Attribute):
+                bound.add(x.targets[0].id)          # m = obj.method / super().method: an alias of package code the rules would have to look into
+            elif isinstance(x, _ast.Name) and isinstance(x.ctx, _ast.Store):
+                other.add(x.id)
+        # (a local that holds a caller-supplied callable -- `response = responses[index]` -- is data, not a piece of this function)
+        bound -= set(n_ for n_ in other if sum(1 for y in _ast.walk(node) if isinstance(y, _ast.Name) and y.id == n_ and isinstance(y.ctx, _ast.Store)) >
+                     sum(1 for y in _ast.walk(node) if isinstance(y, _ast.Assign) and len(y.targets) == 1 and isinstance(y.targets[0], _ast.Name)
+                         and y.targets[0].id == n_ and isinstance(y.value, _ast.Attribute)))
         out = set()
         for x in _ast.walk(node):
             if isinstance(x, _ast.Call):
